@@ -95,6 +95,8 @@ func checkC20(p *Prog, r *Report) {
 	}
 	checkFieldLoopsFull(p, r, "C20")
 	checkC20IDAndPurity(p, r)
+	r.rule("C20.rel-types: Check compares a relationship field's reflect.Type.String() with exactly \"string\" and \"[]string\"")
+	checkRelFieldTypes(p, r, chk)
 
 	// ---- split-arity: discharge/flag the relTag[k] sites that R3 cannot prove
 	// (re-decide them here with the precondition rule; R3's generic verdict for
@@ -935,4 +937,30 @@ func impliedByResult(g *ssa.Function, value bool) []edgeFact {
 		out = append(out, ef)
 	}
 	return out
+}
+
+// checkRelFieldTypes: Check accepts a relationship field only when its Go type
+// prints exactly as "string" or "[]string" - the two types Wrap, BuildType and
+// the Wrapper assert when they read such a field.
+func checkRelFieldTypes(p *Prog, r *Report, chk *ssa.Function) {
+	seen := map[string]bool{}
+	eachInstr(chk, func(ins ssa.Instruction) {
+		bo, ok := ins.(*ssa.BinOp)
+		if !ok || (bo.Op != token.NEQ && bo.Op != token.EQL) {
+			return
+		}
+		for _, pr := range [][2]ssa.Value{{bo.X, bo.Y}, {bo.Y, bo.X}} {
+			s, ok := constString(pr[1])
+			if !ok || (s != "string" && s != "[]string") {
+				continue
+			}
+			c, _ := callOf(pr[0])
+			if c == nil || !c.Common().IsInvoke() || c.Common().Method.Name() != "String" {
+				continue
+			}
+			// leads to an error return on mismatch
+			seen[s] = true
+		}
+	})
+	r.decide(seen["string"] && seen["[]string"], "C20.rel-types", "Check:relationship-field-types", p.pos(chk.Pos()), "a relationship field must be exactly string or []string", "Check does not compare a relationship field's type with exactly \"string\" and \"[]string\": it accepts fields (e.g. of a defined string type) on which Wrap, Copy and MarshalResource's .(string) / .([]string) assertions panic")
 }
